@@ -237,7 +237,7 @@ func runCheck(id, tier string, seed int64) int {
 				}
 			}
 		}
-		extra := pc.extraEnv(b)
+		extra := append(pc.extraEnv(b), tc.env...)
 		timeout := time.Duration(tc.timeoutS) * time.Second
 		runJobs(b, id, append(rjobs, jobs...), knownSigs, extra, 16, timeout)
 		for _, j := range rjobs {
